@@ -1266,3 +1266,103 @@ def freshness_boundary(ctx):
             ctx.require(served_from_cache is fresh, q, 'an address record of height 100 under block count %d is %s (`%s`)' % (count, 'answered from the cache' if served_from_cache else 'not used', norm(test)[:80]), tests[0],
                         'after one new block the cached history is returned without that block\'s transactions and marked complete; no provider is asked until another block arrives')
     ctx.floor(n, 8, 'freshness decisions')
+
+
+@PROP.obligation('C20.node-sync-guard', canaries=[
+    mut.replace_expr('services.bitcoind', 'BitcoindClient.blockcount', "bcinfo['headers'] - bcinfo['blocks']", "bcinfo['blocks'] - bcinfo['headers']", 'the sync guard of the bitcoind client can never fire'),
+])
+def node_sync_guard(ctx):
+    """A node that is still catching up (validated blocks far behind the headers it knows) answers a stale height; BitcoindClient.blockcount
+    raises for it so that the fail-over skips the provider. The guard is evaluated on a node 5000 blocks behind (must raise), 3 behind
+    (must raise) and 0 / 2 behind (must answer): with the operands swapped it never fires and the stale height is returned and cached."""
+    q = 'services.bitcoind:BitcoindClient.blockcount'
+    fn = ctx.repo.func(q)
+    guards = [i_ for i_ in ast.walk(fn) if isinstance(i_, ast.If) and any(isinstance(x, ast.Raise) for x in i_.body) and 'headers' in norm(i_.test) and 'blocks' in norm(i_.test)]
+    if len(guards) != 1:
+        ctx.undecided('BitcoindClient.blockcount: sync guard not found')
+    names = set(x.id for x in ast.walk(guards[0].test) if isinstance(x, ast.Name))
+    if len(names) != 1:
+        ctx.undecided('BitcoindClient.blockcount: sync guard reads %s' % sorted(names))
+    var = names.pop()
+    n = 0
+    for blocks, headers, want in ((795000, 800000, True), (799997, 800000, True), (799998, 800000, False), (800000, 800000, False)):
+        try:
+            r = bool(eval(compile(ast.Expression(guards[0].test), '<sync>', 'eval'), {'__builtins__': {}}, {var: {'blocks': blocks, 'headers': headers}}))
+        except Exception as e:
+            ctx.undecided('BitcoindClient.blockcount: sync guard not evaluable: %r' % e)
+        n += 1
+        ctx.saw('node at block %d of %d headers -> %s' % (blocks, headers, 'refused (fail-over)' if r else 'answers'))
+        ctx.require(r is want, q, 'a node at block %d with %d headers known %s (`%s`)' % (blocks, headers, 'answers its stale height' if not r else 'is refused', norm(guards[0].test)[:60]), guards[0],
+                    'a bitcoind provider in initial block download answers height 120000 while the chain is at 800000: Service.blockcount() returns and caches it instead of asking the next provider')
+    ctx.floor(n, 4, 'sync scenarios')
+
+
+@PROP.obligation('C20.clamp-before-cache', canaries=[
+    mut.Canary('the fee estimate is cached before it is clamped to the network limits', SVC, lambda tree: _cache_before_clamp(tree)),
+])
+def clamp_before_cache(ctx):
+    """Service.estimatefee clamps what a provider answered to the network's fee_min .. fee_max and caches the figure for later calls. The
+    call that stores it (cache.store_estimated_fee) comes AFTER every assignment of the value it stores: what a later call is served
+    from the cache is what the first call returned - not the raw figure (a provider's "no estimate" sentinel of -1 coin per kB would be
+    handed out as a negative fee rate for ten minutes)."""
+    q = SVC + ':Service.estimatefee'
+    fn = ctx.repo.func(q)
+    g = build_cfg(fn)
+    stores = [nd for nd in g.nodes if nd.ast is not None and nd.kind == 'stmt' and any(isinstance(c, ast.Call) and isinstance(c.func, ast.Attribute) and c.func.attr == 'store_estimated_fee' for c in ast.walk(nd.ast))]
+    if len(stores) != 1:
+        ctx.undecided('Service.estimatefee: %d calls of store_estimated_fee, expected 1' % len(stores))
+    call = [c for c in ast.walk(stores[0].ast) if isinstance(c, ast.Call) and isinstance(c.func, ast.Attribute) and c.func.attr == 'store_estimated_fee'][0]
+    val = call.args[1] if len(call.args) > 1 else None
+    if not isinstance(val, ast.Name):
+        ctx.undecided('Service.estimatefee: the stored value is not a local variable')
+    later = [nd for nd in g.nodes if nd.ast is not None and isinstance(nd.ast, ast.Assign) and any(isinstance(t, ast.Name) and t.id == val.id for t in nd.ast.targets)
+             and nd.id in g.reach([stores[0].id]) and nd.id != stores[0].id]
+    ctx.saw('store_estimated_fee(%s) at line %d; assignments of %s reachable after it: %s' % (val.id, stores[0].ast.lineno, val.id, [norm(x.ast)[:40] for x in later]))
+    ctx.require(not later, q, '`%s` is stored in the cache and changed afterwards (`%s`): the cache holds another figure than the call returns' % (val.id, norm(later[0].ast)[:50] if later else ''), stores[0].ast,
+                'the first estimatefee() returns the clamped 1000, every later call within ten minutes the cached raw -100000000')
+
+
+def _cache_before_clamp(tree):
+    for cls in tree.body:
+        if isinstance(cls, ast.ClassDef) and cls.name == 'Service':
+            for f in cls.body:
+                if isinstance(f, ast.FunctionDef) and f.name == 'estimatefee':
+                    for blk in ast.walk(f):
+                        body = getattr(blk, 'body', None)
+                        if not isinstance(body, list):
+                            continue
+                        idx = [i for i, s_ in enumerate(body) if isinstance(s_, ast.Expr) and 'store_estimated_fee' in norm(s_)]
+                        clamp = [i for i, s_ in enumerate(body) if isinstance(s_, ast.If) and 'fee_min' in norm(s_.test)]
+                        if idx and clamp and clamp[0] < idx[0]:
+                            st = body.pop(idx[0])
+                            body.insert(clamp[0], st)
+                            return True
+    return False
+
+
+@PROP.obligation('C20.no-estimate-is-no-answer', canaries=[
+    mut.replace_expr('services.bcoin', 'BcoinClient.estimatefee', 'not fee', 'fee is None', 'a bcoin node without fee data answers the estimate 0'),
+])
+def no_estimate_is_no_answer(ctx):
+    """"Providers that ... answer empty are skipped": a bcoin node that has no fee data replies {"rate": 0}. BcoinClient.estimatefee is
+    evaluated on that reply and on a real one: rate 0 gives False (the value _provider_execute skips), rate 1234 gives 1234. Handed on
+    as the answer 0, the fail-over stops at this provider and Service.estimatefee falls back to a figure no provider gave."""
+    q = 'services.bcoin:BcoinClient.estimatefee'
+    fn = ctx.repo.func(q)
+    n = 0
+    for reply, want in (({'rate': 0}, False), ({'rate': 1234}, 1234)):
+        it = Interp(ctx.repo, 'services.bcoin', hooks={'.compose_request': lambda it_, b, a, kw, st, node, reply=reply: dict(reply)}, self_cls='services.bcoin:BcoinClient')
+        try:
+            exits = it.run_function(fn, {'self': S(('var', 'self')), 'blocks': 3})
+        except AnalysisError as e:
+            ctx.undecided('BcoinClient.estimatefee not evaluable: %s' % str(e)[:100])
+        rets = [e for e in exits if e.kind == 'return']
+        if len(rets) != 1:
+            ctx.undecided('BcoinClient.estimatefee: %d return paths on the reply %s' % (len(rets), reply))
+        got = rets[0].value
+        got = got if not isinstance(got, S) else show(term(got))
+        n += 1
+        ctx.saw('reply %s -> %r' % (reply, got))
+        ctx.require(got == want and type(got) == type(want), q, 'the reply %s is answered with %r, expected %r' % (reply, got, want), fn,
+                    'with a bcoin node that has no fee data ahead of a healthy provider, estimatefee() raises or returns the network default although the next provider has an estimate')
+    ctx.floor(n, 2, 'replies')
